@@ -4,20 +4,23 @@
 // WriteUint64Le succeed iff offset+8 <= Size(), Grow succeeds iff the page maximum is respected).
 //
 // input (fields separated by one space, all numbers hex):
-//   seq <heapBase> <initialPages> <maxPages> <op> <op> ...
-//   op :=  a,<size>            Allocate(mem, size)
-//          f,<i>,<delta>       Deallocate(mem, ptr_i + delta)   ptr_i = pointer returned by op number i
-//                              (0 if op i was not a successful allocation); delta signed; u32 wrap
-//          F,<ptr>             Deallocate(mem, ptr)
-//          w,<i>,<off>,<val>   the guest stores byte val at ptr_i+off   (performed only if that
-//          r,<i>,<off>         the guest loads the byte at ptr_i+off     address lies inside the
-//                              requested size of a live allocation; otherwise "skip")
-//          g,<n>               the guest grows the memory by n pages
-//          S,<n>               the embedder swaps in a memory of min(n, maxPages) pages (may shrink)
+//
+//	seq <heapBase> <initialPages> <maxPages> <op> <op> ...
+//	op :=  a,<size>            Allocate(mem, size)
+//	       f,<i>,<delta>       Deallocate(mem, ptr_i + delta)   ptr_i = pointer returned by op number i
+//	                           (0 if op i was not a successful allocation); delta signed; u32 wrap
+//	       F,<ptr>             Deallocate(mem, ptr)
+//	       w,<i>,<off>,<val>   the guest stores byte val at ptr_i+off   (performed only if that
+//	       r,<i>,<off>         the guest loads the byte at ptr_i+off     address lies inside the
+//	                           requested size of a live allocation; otherwise "skip")
+//	       g,<n>               the guest grows the memory by n pages
+//	       S,<n>               the embedder swaps in a memory of min(n, maxPages) pages (may shrink)
+//
 // observed: one token per op: <res>,<pagesAfter>
-//   res := p<ptr> | e:<class> | ok | v<byte> | skip
-//   class := poisoned shrunk toolarge hdrptr readhdr order occfree oos grow writehdr invalidptr
-//            emptyhdr underflow other
+//
+//	res := p<ptr> | e:<class> | ok | v<byte> | skip
+//	class := poisoned shrunk toolarge hdrptr readhdr order occfree oos grow writehdr invalidptr
+//	         emptyhdr underflow other
 package allocator_test
 
 import (
